@@ -545,11 +545,11 @@ func (w *world) fusion(stepI int, opm map[string]any, o *obsRec, live map[int]bo
 			ks := []int{kFull, 1 + rot%2}
 			apis := []string{"VSearchGraph", "VSearch"}
 			// ---- hybrid: alpha in {0, 1/2, 1} and one more interior weight, every k
-			// Oracle for every k = the late-fusion rule of searchWithFusion (FusionPool / HybridOK of TextIdx.tla):
-			// pool = k nearest (allowed) documents + EVERY (allowed) candidate; score of a pool document =
-			// alpha/(1+d) [only among the k nearest] + (1-alpha)*bm25/max [only for a candidate, its OWN BM25, max over
-			// all allowed candidates]; the k best of the pool are returned with exactly that score.  For k >= |L| this
-			// is the documented formula on every live document.
+			// Oracle at every k = the documented formula on EVERY live allowed document (HybridOK of TextIdx.tla):
+			//   score(d) = alpha/(1+dist(d)) + (1-alpha)*bm25(d)/max   (its OWN BM25, 0 unless a candidate; max over the allowed candidates)
+			// the returned list is a top-k of L by that score (ties either way), every reported score is exactly that, in
+			// non-increasing order.  alpha = 0: candidates in text order, then (if k exceeds their number) documents without a text
+			// score at 0, in any order; alpha = 1: the vector order.
 			extra := []float64{0.25, 0.75, 0.4}[(rot/3)%3]
 			for ai, alpha := range []float64{0, 0.5, 1, extra} {
 				for ki, k := range ks {
@@ -568,29 +568,20 @@ func (w *world) fusion(stepI int, opm map[string]any, o *obsRec, live map[int]bo
 					for i, hh := range hits {
 						res[i] = hh.d
 					}
-					// the k nearest documents of L (distances are pairwise distinct)
+					// the k nearest documents of L: only to NAME the late-fusion deviation (a candidate outside them scored without its vector term)
 					near := keys(L)
 					sort.Slice(near, func(x, y int) bool { return vrk[near[x]] < vrk[near[y]] })
 					vecTop := map[int]bool{}
 					for i := 0; i < len(near) && i < k; i++ {
 						vecTop[near[i]] = true
 					}
-					pool := map[int]bool{}
-					rule := map[int]float64{}    // late-fusion score of the pool documents
-					formula := map[int]float64{} // alpha/(1+d) + (1-alpha)*bm25/max of every live document
+					formula := map[int]float64{}
 					for d := range L {
 						ts := 0.0
 						if C[d] && maxbm > 0 {
 							ts = bm[d] / maxbm
 						}
 						formula[d] = alpha/(1+float64(vrk[d])) + (1-alpha)*ts
-						if vecTop[d] || C[d] {
-							pool[d] = true
-							rule[d] = (1 - alpha) * ts
-							if vecTop[d] {
-								rule[d] += alpha / (1 + float64(vrk[d]))
-							}
-						}
 					}
 					mode := "hybrid"
 					switch alpha {
@@ -604,14 +595,24 @@ func (w *world) fusion(stepI int, opm map[string]any, o *obsRec, live map[int]bo
 						w.res.AlphaHalf++
 						if k < len(L) {
 							w.res.InteriorSmallK++
+							for d := range C {
+								if !vecTop[d] {
+									w.res.OutsideNearest++ // the formula and a late fusion without that vector term differ on this search
+									break
+								}
+							}
 						}
 					}
-					frk, ftie := denseRank(nd, keys(pool), rule, tolBM25)
+					frk, ftie := denseRank(nd, keys(L), formula, tolBM25)
 					if ftie && mode == "hybrid" {
 						w.res.Ties++
 					}
 					ok := fusionOK(mode, res, L, C, vrk, trk, frk, k)
-					w.keep(judged{Mode: mode, K: k, Res: plus1(res), L: oneBased(L), C: oneBased(C), Vrk: vrk, Trk: trk, Frk: frk, OK: ok})
+					// alpha = 0 and alpha = 1 are also instances of the formula
+					if ok && mode != "hybrid" && !topK(res, L, frk, k) {
+						ok = false
+					}
+					w.keep(judged{Mode: mode, K: k, Res: plus1(res), L: oneBased(L), C: oneBased(C), Vrk: vrk, Trk: trk, Frk: frk, OK: fusionOK(mode, res, L, C, vrk, trk, frk, k)})
 					if !ok {
 						dev := "deviation=order_" + mode
 						if mode == "hybrid" {
@@ -621,15 +622,15 @@ func (w *world) fusion(stepI int, opm map[string]any, o *obsRec, live map[int]bo
 							}
 						}
 						w.diverge(stepI, "fusion_"+mode, opm,
-							fmt.Sprintf("%s returned %s; live/allowed %s, candidates %s, squared distances %v, BM25 %v (max %.12g), late-fusion pool %s with scores %v", desc, hitList(hits), names(w.p, L), names(w.p, C), vrk, bm, maxbm, names(w.p, pool), rule),
+							fmt.Sprintf("%s returned %s; live/allowed %s, candidates %s, squared distances %v, BM25 %v (max %.12g), alpha/(1+d) + (1-alpha)*bm25/max = %v", desc, hitList(hits), names(w.p, L), names(w.p, C), vrk, bm, maxbm, formula),
 							dev, ints(o))
 						continue
 					}
-					// scores (VSearchGraph): every returned document carries its own late-fusion score, in non-increasing order
+					// scores (VSearchGraph): every returned document carries the formula's score, in non-increasing order
 					if api == "VSearchGraph" {
 						fallback := len(C) == 0 // no text score at all: the engine may fall back to a plain vector search (unscaled similarity)
 						for i, hh := range hits {
-							want := rule[hh.d]
+							want := formula[hh.d]
 							w.res.FusedScores++
 							if i > 0 && hits[i-1].score < hh.score {
 								w.diverge(stepI, "fusion_score", opm, fmt.Sprintf("%s returned %s: reported scores increase at position %d", desc, hitList(hits), i), "deviation=fused_order", ints(o))
@@ -642,35 +643,16 @@ func (w *world) fusion(stepI int, opm map[string]any, o *obsRec, live map[int]bo
 								continue
 							}
 							dev := "deviation=fused_score"
-							if C[hh.d] && relClose(hh.score, want-(1-alpha)*bm[hh.d]/maxbm, tolBM25) {
+							if C[hh.d] && maxbm > 0 && relClose(hh.score, want-(1-alpha)*bm[hh.d]/maxbm, tolBM25) {
 								dev = "deviation=fused_score_text_term_dropped" // a candidate scored without its own BM25 term
+							} else if !vecTop[hh.d] && relClose(hh.score, want-alpha/(1+float64(vrk[hh.d])), tolBM25) {
+								dev = "deviation=fused_score_vector_term_dropped" // late fusion with a truncated vector side
 							}
 							w.diverge(stepI, "fusion_score", opm,
-								fmt.Sprintf("%s: score of %s = %.17g, alpha*1/(1+d)%s + (1-alpha)*bm25/max = %.17g (d=%d, bm25=%.17g, max=%.17g)", desc, hh.id, hh.score,
-									map[bool]string{true: "", false: " [not among the k nearest: no vector term]"}[vecTop[hh.d]], want, vrk[hh.d], bm[hh.d], maxbm),
+								fmt.Sprintf("%s: score of %s = %.17g, alpha*1/(1+d) + (1-alpha)*bm25/max = %.17g (d=%d, bm25=%.17g, max=%.17g, among the k nearest: %v)", desc, hh.id, hh.score,
+									want, vrk[hh.d], bm[hh.d], maxbm, vecTop[hh.d]),
 								dev, ints(o))
 							break
-						}
-					}
-					// the documented formula itself at small k (0 < alpha < 1): the pinned late fusion gives a candidate outside the
-					// k nearest no vector term.  Measured; a divergence only when the profile asks for the strict formula.
-					if mode == "hybrid" && k < len(L) && len(C) > 0 {
-						w.res.HalfSmallK++
-						zrk, _ := denseRank(nd, keys(L), formula, tolBM25)
-						differs := !topK(res, L, zrk, k)
-						for _, d := range res {
-							if !vecTop[d] {
-								w.res.NoVectorTerm++ // returned with a score that lacks alpha/(1+d)
-								break
-							}
-						}
-						if differs {
-							w.res.HalfSmallKDiffers++
-							if w.p.Strict {
-								w.diverge(stepI, "fusion_formula", opm,
-									fmt.Sprintf("%s returned %s; alpha/(1+d) + (1-alpha)*bm25/max over every live document = %v, k nearest %s", desc, hitList(hits), formula, names(w.p, vecTop)),
-									"deviation=vector_term_dropped_outside_vector_topk", ints(o))
-							}
 						}
 					}
 				}
